@@ -1,6 +1,19 @@
 META = {
-    "assumptions": ["allocation failure out of scope (--no-malloc-may-fail)"],
-    "outside": [],
+    "assumptions": ["allocation failure out of scope (--no-malloc-may-fail)",
+                    "directory blocks are well formed before the operation (rec_len chain tiles the block, every rec_len >= 12 "
+                    "[>= 8 in the MINREC=8 queries], a record in use has a non-empty name, checksum tail present iff metadata_csum); "
+                    "corrupt directories are property C06/C02",
+                    "block mapping, block read/write and checksum computation are stubs (always succeed); checksum content is C14",
+                    "little-endian host (the WORDS_BIGENDIAN swab paths of dirblock.c are not compiled)"],
+    "outside": ["histories of operations: one operation from an arbitrary well-formed block (induction over WF), not sequences",
+                "dx_lookup as a whole (multi-level walk, root info validation), dx_split_leaf, dx_move_dirents, dx_grow_tree, dx_link's retry loop",
+                "ext2fs_expand_dir, ext2fs_mkdir (inode/block allocation, parent link count), ext2fs_symlink, namei path walk",
+                "link counts, dir_nlink overflow rule, release of inode and blocks by debugfs rm/rmdir/kill_file",
+                "inline-data directories, casefolded/encrypted directories (SipHash, hash-in-dirent), blocksize >= 65536 rec_len encoding",
+                "interleaving with e2fsck -D (rehash.c: see C05), e2fsck -fn verdict on the result, duplicate-name prevention (ext2fs_link does not check)",
+                "directory blocks larger than 64 bytes / more than 2 blocks; names longer than 8 bytes in link/unlink/lookup",
+                "keyed hashes end to end for all names AND all seeds in one query only in the thorough tier (quick tier proves packing, "
+                "transform, seed/result selection separately and the glue on fixed vectors)"],
 }
 
 def blk_unwind(bs, nb=1, extra=()):
@@ -91,7 +104,8 @@ HARNESSES = [
          configs=link_cfgs(), unwind=4,
          unwindset=blk_unwind(BSQ, 1, ["strlen.0:10", "strncpy.0:10"]),
          backends=["default", "kissat"],
-         bound="one directory block of 48 bytes, every byte symbolic under WF; new name 1..8 bytes, inode, type symbolic"),
+         bound="one directory block of 40..48 bytes (64 thorough), every byte symbolic under WF; new name of 1,3,4,5,8 bytes "
+               "(length fixed per query, bytes symbolic), inode and flags symbolic; features {filetype, metadata_csum} per query"),
     dict(name="unlink", src="unlink.c",
          funcs=["ext2fs_unlink", "unlink_proc", "ext2fs_process_dir_block", "ext2fs_dir_iterate", "ext2fs_dir_iterate2",
                 "ext2fs_read_dir_block4", "ext2fs_write_dir_block4"],
@@ -99,7 +113,8 @@ HARNESSES = [
          configs=unlink_cfgs(), unwind=4,
          unwindset=blk_unwind(BSQ, 1, STR),
          backends=["default", "kissat"],
-         bound="tbd"),
+         bound="one block of 48/60 bytes or two blocks of 24/28 bytes, every byte symbolic under WF; by name (3 or 5 bytes, symbolic), "
+               "by inode, by both, with and without EXT2FS_UNLINK_FORCE"),
 ]
 HARNESSES.append(
     dict(name="lookup", src="lookup.c",
@@ -109,10 +124,11 @@ HARNESSES.append(
          configs=lookup_cfgs(), unwind=4,
          unwindset=blk_unwind(BSQ, 1, STR),
          backends=["default", "kissat"],
-         bound="tbd"))
+         bound="one block of 48/60 bytes or two of 24 bytes, every byte symbolic under WF; name of 2,3,5 symbolic bytes; "
+               "iterator flags 0, INCLUDE_EMPTY, INCLUDE_EMPTY|INCLUDE_CSUM"))
 def dx_cfgs():
     c = []
-    for op, lim in ((1, 8), (1, 5), (2, 6), (2, 4)):
+    for op, lim in ((2, 6), (2, 4), (1, 8), (1, 5)):
         bs = 8 + 8 * lim
         c.append({"OP": op, "LIMIT": lim,
                   "_unwindset": ["main.%d:%d" % (i, bs + 2) for i in range(10)] +
@@ -125,7 +141,7 @@ HARNESSES.append(
          funcs=["dx_search_entry", "dx_insert_entry", "ext2fs_write_dir_block4"],
          configs=dx_cfgs(), unwind=4,
          backends=["default", "kissat"],
-         bound="tbd"))
+         bound="one index node with limit 4..8, count, hashes (ascending), blocks, target hash and inserted pair symbolic"))
 
 def newdir_cfgs():
     c = []
@@ -143,7 +159,7 @@ HARNESSES.append(
          extra_harness_src=["C10/iter_unit.c"], extra_src=["lib/ext2fs/csum.c"],
          configs=newdir_cfgs(), unwind=4,
          backends=["default", "kissat"],
-         bound="tbd"))
+         bound="block size 32/48/64; dir_ino and parent_ino all 2^32 values; features per query"))
 
 def hash_unwind(maxlen):
     return ["dx_hack_hash.0:%d" % (maxlen + 2), "str2hashbuf.0:%d" % (maxlen + 2), "str2hashbuf.1:10",
@@ -180,7 +196,8 @@ def hash_cfgs():
     c.append(full(4, 8, _tier="thorough", _backends=["kissat", "cvc5"]))
     c.append(full(2, 5, _tier="thorough", _backends=["kissat"]))
     # G. kernel's EOF remap
-    c.append(full(0, 6, CHECK_EOF=None))
+    c.append(full(0, 6, CHECK_EOF=None, EOFVEC=None, _backends=["default"]))
+    c.append(full(0, 6, CHECK_EOF=None, _tier="thorough", _backends=["kissat"]))
     return c
 
 HARNESSES.append(
@@ -188,5 +205,19 @@ HARNESSES.append(
          funcs=["ext2fs_dirhash2", "ext2fs_dirhash", "str2hashbuf", "halfMD4Transform", "TEA_transform", "dx_hack_hash"],
          configs=hash_cfgs(), unwind=4, unwindset=hash_unwind(8),
          backends=["default", "kissat"],
-         bound="tbd"))
-MANIFEST = {"text": "tbd", "note": "tbd"}
+         cap_thorough=1500,
+         bound="packing: all names up to 18 (TEA) / 34 (half-MD4) bytes; transform: all states and message words; seed selection: all seeds; "
+               "legacy: all names of 1,4,5,8 bytes; glue: fixed vectors of 7..37 bytes; thorough: all names of 5/8 bytes and all seeds end to end"))
+MANIFEST = {
+    "text": "Bounded-exhaustive inductive step on one directory block: from every well-formed block (all bytes symbolic, 40-64 bytes) "
+            "one ext2fs_link / leaf insert / ext2fs_unlink with symbolic name bytes, inode and flags changes the listing seen by an "
+            "independent reader of the on-disk format by exactly the requested entry, keeps every other entry byte for byte, keeps the "
+            "block well formed and the checksum tail intact, and reports no-space / not-found exactly when the reference says so; "
+            "ext2fs_lookup and the iterator report exactly what the reader sees. Index nodes: binary search and pair insertion against "
+            "a linear reference. New directory blocks hold exactly '.' and '..'. The name hash equals the kernel's definition "
+            "(packing, transform, seed and result selection decided for all inputs separately; end to end in the thorough tier) "
+            "except for the kernel's EOF remap (reported finding).",
+    "note": "Trusted: CBMC's C semantics, the harness reader (vf_scan) as definition of a well-formed block, stubs for block "
+            "mapping/read/write/checksum. Not covered: sequences, leaf split and tree growth, expand_dir, mkdir/rm/rmdir link "
+            "counts and freeing, inline data, e2fsck interplay; see 'outside'.",
+}
